@@ -67,7 +67,19 @@ func genAluVec(r *hx.Rand, op string) AluVec {
 			b = new(big.Int).Mod(b, pow2(1+r.Intn(12)))
 		}
 	case "SHL", "SHR", "SAR":
-		if r.Chance(3, 4) {
+		if r.Chance(1, 8) { // shift operands >= 2^64 whose low limb is a small number (truncation to uint64 must not happen)
+			a = pow2([]int{64, 128, 192, 255, 65, 100}[r.Intn(6)])
+			switch r.Intn(3) {
+			case 0:
+				a.Add(a, big.NewInt(int64(r.Intn(256))))
+			case 1:
+				a.Mul(a, big.NewInt(int64(1+r.Intn(5)))).Add(a, big.NewInt(int64(r.Intn(8))))
+				a.Mod(a, bigW)
+			}
+			if b.Sign() == 0 {
+				b = big.NewInt(int64(1 + r.Intn(255)))
+			}
+		} else if r.Chance(3, 4) {
 			a = big.NewInt(int64(r.Intn(260)))
 			if r.Chance(1, 4) {
 				a = big.NewInt(int64([]int{0, 1, 63, 64, 65, 127, 128, 129, 191, 192, 193, 254, 255, 256, 257, 258, 300, 511, 512}[r.Intn(19)]))
